@@ -146,14 +146,19 @@ def one_case(ctx, cid, rng, idx):
     path = ctx.path()
     group = "/" if idx % 4 else "/resolutions/100"
     uri = path + ("::" + group if group != "/" else "")
-    make_cooler(uri, bt, P, count_dtype=np.float64 if isfloat else None)
+    idt = [None, None, np.int32, np.uint32, np.uint16][idx % 5]         # stored bin-id dtype (a creation option)
+    dts = {"bin1_id": idt, "bin2_id": idt} if idt else {}
+    if isfloat:
+        dts["count"] = np.float64
+    make_cooler(uri, bt, P, dtypes=dts or None)
     clr = cooler.Cooler(uri)
     cs = work_cap(len(P), opts, rng)
     desc = {"bt": [[c_, len(e) - 1] for c_, e in bt], "pattern": pat, "float_counts": isfloat, "mode": mode,
             "options": {k: v for k, v in opts.items()}, "chunksize": cs, "nnz": len(P),
             "pixels": sorted((a, b, v) for (a, b), v in P.items())[:200]}
     with ctx.case(cid, desc) as c:
-        c.feature(f"mode:{mode}", "location:root" if group == "/" else "location:nested-group")
+        c.feature(f"mode:{mode}", "location:root" if group == "/" else "location:nested-group",
+                  f"stored-bin-id-dtype:{np.dtype(idt).name if idt else 'int64'}")
         if isfloat:
             c.feature("counts:float")
         if not opts["rescale_marginals"]:
